@@ -73,6 +73,14 @@ def garbage(r, framing, d, cls):
         return bytes(r.randrange(256) for _ in range(r.randint(1, 40)))
     if cls == 'random-long':
         return bytes(r.randrange(256) for _ in range(r.randint(200, 700)))
+    if cls == 'line-noise':
+        # a stuck or chattering line: kilobytes of noise that never contain a start character (0x00 / 0xFF runs, wrong-baud chatter)
+        n = r.randint(1030, 3000)
+        x = r.random()
+        if x < 0.3:
+            return bytes([r.choice([0x00, 0xFF])]) * n
+        pool = [b for b in range(256) if b not in (0x3A, 0x7B)]
+        return bytes(r.choice(pool) for _ in range(n))
     if cls == 'delimiters':
         pool = {'rtu': [0, 1, 3, 0x10, 0xFF], 'ascii': [0x3A, 0x0D, 0x0A, 0x30, 0x46, 0x20], 'binary': [0x7B, 0x7D, 0x01, 0x00]}[framing]
         return bytes(r.choice(pool) for _ in range(r.randint(1, 12)))
@@ -103,7 +111,7 @@ def garbage(r, framing, d, cls):
     raise ValueError(cls)
 
 
-CLASSES = ['random', 'random-long', 'delimiters', 'flipped', 'truncated', 'foreign-unit', 'huge-bytecount', 'bad-checksum']
+CLASSES = ['random', 'random-long', 'delimiters', 'flipped', 'truncated', 'foreign-unit', 'huge-bytecount', 'bad-checksum', 'line-noise']
 
 
 def ascii_stray_colon(g):
